@@ -142,6 +142,19 @@ def ceilings(ctx, P):
             ctx.check('%s:S19-2:argon2:%s' % (P, nm), 'R-dom', 'Argon2 parameter %s is compared with %d (rejecting) before the derivation runs' % (nm, cst), ok and bool(gs), function=b.path,
                       guards=[site(b, g) for g in gs], witness=fmt_path(b, wit) if wit else None)
         gs = [g for g, _ in guard_switches(b, sinks, [r'cdef:.*ARGON2_MEMORY_LIMIT_KIB$|const:2097152:u32$'])]
+        # ... compared DIRECTLY: one side of the comparison is the constant itself (not the constant scaled or passed through a call)
+        defs = single_defs(b)
+        direct = []
+        for g in gs:
+            k, v = resolve_value(b, b.blocks[g]['t']['o'], defs)
+            if k == 'rv' and v['k'] == 'un':
+                k, v = resolve_value(b, v['o'][0], defs)
+            if k == 'rv' and v['k'] == 'bin' and v['op'] in ('Le', 'Lt', 'Ge', 'Gt'):
+                for o in v['o']:
+                    kk, vv = resolve_value(b, o, defs)
+                    if (kk == 'const' and vv == 2 * 1024 * 1024) or (kk == 'constx' and str(vv.get('cdef', '')).endswith('ARGON2_MEMORY_LIMIT_KIB')):
+                        direct.append(g)
+        gs = direct
         ok, wit = must_pass(b, sinks, gs)
         ctx.check(P + ':S19-2:argon2:memory', 'R-dom', 'the decoded Argon2 memory size is compared with ARGON2_MEMORY_LIMIT_KIB (rejecting) before the derivation runs', ok and bool(gs), function=b.path)
     c = ctx.f.consts.get('types::s2k::ARGON2_MEMORY_LIMIT_KIB')
